@@ -309,8 +309,12 @@ def correspondence(ctx, case, res, names, model_exe):
         ctx.hist("passes", "modelled")
         if cauto.startswith("C ") and sorted(cauto[2:].split()) != real:
             mm = cauto[2:].split()
-            dis.append(f"files created by exp2cxx vs model (passes predicted {passes}): only real {sorted(set(real)-set(mm))[:6]} only model {sorted(set(mm)-set(real))[:6]}"
-                       + (" duplicates in model" if len(mm) != len(set(mm)) and not set(mm) ^ set(real) else ""))
+            if set(mm) != set(real):
+                dis.append(f"files created by exp2cxx vs model (passes predicted {passes}): only real {sorted(set(real)-set(mm))[:6]} only model {sorted(set(mm)-set(real))[:6]}")
+            else:
+                # the same name created twice (e.g. an entity of the same name in two schemas of the file): the later write
+                # replaces the earlier one in the real run as well — a name-collision matter (C02), not a file-set difference
+                ctx.hist("passes", "a generated file name is created twice in one run (overwritten)")
         elif not cauto.startswith("C "):
             dis.append(f"model answered {cauto!r} for an accepted file")
     else:
